@@ -548,10 +548,34 @@ fn suite_convert(out: &mut Out, thorough: bool) {
         writeln!(out.w, "cont\tlist-scott\tscott\t{}\t{}", s, ser(&IntoScottList::into_scott(xs.clone()))).unwrap();
         writeln!(out.w, "cont\tlist-parigot\tparigot\t{}\t{}", s, ser(&IntoParigotList::into_parigot(xs.clone()))).unwrap();
     }
-    // From conversions
+    // binary numerals beyond 32 bits (the number is given by its bits, most significant first)
+    for k in [(1usize << 31) - 1, 1 << 31, (1 << 32) - 1, 1 << 32, (1 << 32) + 1, (1 << 33) + 5, (1 << 40) + 12345,
+              (1 << 48) - 1, 1 << 62, (1 << 63) + 1, usize::MAX - 1, usize::MAX] {
+        writeln!(out.w, "bignum\tbinary\t{:b}\t{}\t{}", k, k, ser(&k.into_binary())).unwrap();
+    }
+    // From conversions (closed payloads)
     for b in [false, true] {
         let t: Term = b.into();
         writeln!(out.w, "from\tbool\t{}\t{}", b as u8, ser(&t)).unwrap();
+    }
+    let payloads: Vec<Term> = vec![
+        cb::I(), cb::K(), cb::S(),
+        0.into_church(), 3.into_church(), 2.into_scott(), 2.into_parigot(), 5.into_binary(), nc::succ(),
+        Term::from((1.into_church(), 2.into_scott())), Term::from(Some(0.into_church())), Term::from(None::<Term>),
+    ];
+    writeln!(out.w, "from\tnone\t\t{}", ser(&Term::from(None::<Term>))).unwrap();
+    for a in &payloads {
+        writeln!(out.w, "from\tsome\t{}\t{}", ser(a), ser(&Term::from(Some(a.clone())))).unwrap();
+        writeln!(out.w, "from\tok\t{}\t{}", ser(a), ser(&Term::from(Ok::<Term, Term>(a.clone())))).unwrap();
+        writeln!(out.w, "from\terr\t{}\t{}", ser(a), ser(&Term::from(Err::<Term, Term>(a.clone())))).unwrap();
+        for b in payloads.iter().take(5) {
+            writeln!(out.w, "from\tpair\t{};{}\t{}", ser(a), ser(b), ser(&Term::from((a.clone(), b.clone())))).unwrap();
+        }
+    }
+    for n in 0..5usize {
+        let v: Vec<Term> = payloads.iter().skip(n).take(n).cloned().collect();
+        let s = v.iter().map(ser).collect::<Vec<_>>().join(";");
+        writeln!(out.w, "from\tvec\t{}\t{}", s, ser(&Term::from(v.clone()))).unwrap();
     }
 }
 
